@@ -9,6 +9,11 @@ CHECKS = {
          "Every depth-1 program over ~170 gadget templates (arithmetic, extension arithmetic, bit/limb decomposition, range checks, selection, random access, exponentiation, Poseidon hashing, Merkle membership, reductions, lookups) with every operand aliasing, every depth-2 chain, and a catalogue of compositions; inputs = full product of boundary alphabets (0,1,2,p-1,p-2,2^32-1,2^32,2^63 and per-gadget range boundaries). For every (program, input): real witness generation, public inputs compared with an independent direct evaluation, and the generated witness checked by the exact satisfaction oracle (gate constraints from the committed constants, copy classes, sigma-vs-class static invariant); unsatisfying inputs must not yield a satisfying witness. Proof level (prove, verify, verifier_data().verify, compress, verify_compressed, public inputs) for 2-3 inputs of every depth-1 program and for catalogue x 28 configuration deviations (zk, rate, cap, queries, pow, all three reduction strategies, challenge count, quotient factor, wire widths, Keccak); thorough adds all pairs of deviations.",
          "trusted: harness u128 arithmetic, textbook Poseidon (c13.rs), the gates' own eval_unfiltered inside the satisfaction oracle (gate-level strength is C07's job); admissibility = the builder's own documented asserts",
          "DESIGN.md §4 C01"),
+ "C02": ("fault_enumeration",
+         "exhaustive single-deviation fault enumeration against the real prover and verifier: every cell / every copy class of the witness corrupted through an identity-representative-map witness, every adversarial prover strategy (knobs) alone and combined; expected verdict decided exactly by an independent satisfaction oracle",
+         "For each subject circuit (arithmetic+range+boolean+equality assertions, Poseidon+Merkle membership, two lookup tables, random access+exponentiation+extension arithmetic; thorough adds base-sum/division and extension-division circuits and 10 configurations incl. 1/3 challenges, quotient factors 7/16, 25/136 routed wires, zero-knowledge) and each satisfying base input: every target index (all rows x all routed and advice columns incl. padding and public-input rows, and every virtual target incl. public inputs) is corrupted individually with copy classes broken, every copy class is corrupted consistently, and the prover is driven with: lenient quotient truncation, all-zero and constant permutation accumulator, quotient perturbed for each challenge index, chosen proof-of-work witnesses, lenient lookup multiplicities - alone and combined with corruptions. Whatever the real proving API emits is handed to the real verifier; acceptance must coincide exactly with sat(assignment) (gate constraints from committed constants, copy classes, public-input hash binding, combinatorial lookup predicate) and never occur under a degenerate strategy. Unconstrained cells must still be accepted (no-false-alarm half).",
+         "trusted: the gates' own eval_unfiltered inside sat (C07 checks the gates), harness restatement of lookup padding, Poseidon reference; rejection of a false quotient identity holds except with probability ~2^-110 independent of FRI parameters",
+         "DESIGN.md §4 C02"),
  "C13": ("model_checking",
          "explicit-state exploration of the challenger state machine (all observe/get sequences up to a depth) against a reference duplex-sponge model, step-by-step conformance on the real Challenger / RecursiveChallenger; bounded exhaustive state enumeration for the permutation layers against textbook Poseidon",
          "Every optimised Poseidon layer and the full permutation on 3^12 uniform-extreme states, all <=2-lane deviations over the representation alphabet from three base states and uniform/single-lane states, against a textbook round-by-round Poseidon on u128 arithmetic (anchored on the published test vectors); all message lengths 0..=40 x output counts for the sponge/compression functions; the challenger explored as a transition system: every sequence in {observe, get}^<=d (Poseidon and Keccak permutations) plus macro-operations, each step compared with a list-based duplex model, and every sequence up to a smaller depth replayed on the in-circuit RecursiveChallenger. Run in the checked profile.",
